@@ -4756,6 +4756,15 @@ class Parser:
             and kwargs.get("kind") in (None, "INNER", "OUTER")
         ):
             kwargs["on"] = exp.true()
+        elif (
+            self.JOINS_HAVE_EQUAL_PRECEDENCE
+            and join
+            and not (method or side or kind or hint)
+            and not kwargs.get("on")
+            and not kwargs.get("using")
+        ):
+            # A join without criteria is generated as a comma join, which these dialects parse as a cross join
+            kwargs["kind"] = "CROSS"
 
         if directed:
             kwargs["directed"] = directed
